@@ -71,6 +71,11 @@ pub enum Op {
     Bulk { size: usize, align: usize, count: usize },
     /// move the arena to another thread, run the nested ops there, move it back
     OnThread { ops: Vec<Op> },
+    /// like Dealloc / Grow / Shrink, but the block is the `r`-th live block in address order
+    /// (how behaviours generated from the TLA+ model refer to blocks)
+    DeallocR { r: usize },
+    GrowR { r: usize, size: usize, align: usize, zeroed: bool },
+    ShrinkR { r: usize, size: usize, align: usize },
 }
 
 #[derive(Serialize, Deserialize, Clone, Debug)]
@@ -1013,6 +1018,16 @@ fn do_try_fill<const M: usize, T: Copy + 'static>(st: &mut St<M>, len: usize, fa
 
 // ------------------------------------------------------------ the interpreter
 
+/// index (creation order) of the live block that is `r`-th in (address, size, align) order
+fn rank_to_index(r: usize) -> Option<usize> {
+    SH.with(|s| {
+        let s = s.borrow();
+        let mut idx: Vec<usize> = (0..s.live.len()).collect();
+        idx.sort_by_key(|&i| (s.live[i].ptr, s.live[i].size, s.live[i].align));
+        idx.get(r).cloned()
+    })
+}
+
 fn live_pick(b: usize) -> Option<(i64, usize, usize, usize)> {
     SH.with(|s| {
         let s = s.borrow();
@@ -1454,6 +1469,21 @@ fn step<const M: usize>(st: &mut St<M>, op: &Op) {
                 }
             }
         }
+        Op::DeallocR { r } => {
+            if let Some(b) = rank_to_index(*r) {
+                step(st, &Op::Dealloc { b });
+            }
+        }
+        Op::GrowR { r, size, align, zeroed } => {
+            if let Some(b) = rank_to_index(*r) {
+                step(st, &Op::Grow { b, size: *size, align: *align, zeroed: *zeroed });
+            }
+        }
+        Op::ShrinkR { r, size, align } => {
+            if let Some(b) = rank_to_index(*r) {
+                step(st, &Op::Shrink { b, size: *size, align: *align });
+            }
+        }
         Op::OnThread { ops } => {
             // hand the idle arena to another thread, use it there, take it back
             let bump = st.bump.take();
@@ -1630,11 +1660,13 @@ struct ArenaCtx<const M: usize> {
     st: St<M>,
     sh: Shared,
     next: usize,
+    fault: (Fault, usize),
 }
 
 fn multi_step<const M: usize>(ctx: &mut ArenaCtx<M>, ops: &[Op], seq: &mut usize, ar: usize) {
-    // install this arena's bookkeeping, run one op, take it back
+    // install this arena's bookkeeping (and its own fault policy), run one op, take it back
     SH.with(|s| std::mem::swap(&mut *s.borrow_mut(), &mut ctx.sh));
+    rec::set_fault_state(ctx.fault);
     let before = ctx.st.out.len();
     if ctx.next < ops.len() {
         step(&mut ctx.st, &ops[ctx.next]);
@@ -1648,6 +1680,8 @@ fn multi_step<const M: usize>(ctx: &mut ArenaCtx<M>, ops: &[Op], seq: &mut usize
         e.seq = *seq;
         *seq += 1;
     }
+    ctx.fault = rec::get_fault_state();
+    rec::set_fault(Fault::None);
     SH.with(|s| std::mem::swap(&mut *s.borrow_mut(), &mut ctx.sh));
 }
 
@@ -1658,6 +1692,7 @@ fn new_ctx<const M: usize>(pidx: usize, ar: usize, th: usize, tag: &str) -> Aren
         st: St::<M> { bump: None, gablocks: Vec::new(), last_layout: None, prog: pidx, step: 0, th, out: Vec::new(), tag: tag.to_string() },
         sh,
         next: 0,
+        fault: (Fault::None, 0),
     }
 }
 
@@ -1775,6 +1810,73 @@ pub fn run_multi(pidx: usize, mp: &MultiProgram) -> (Vec<Event>, Vec<SyncEvent>)
         4 => run_multi_m::<4>(pidx, mp),
         8 => run_multi_m::<8>(pidx, mp),
         _ => run_multi_m::<16>(pidx, mp),
+    }
+}
+
+/// Each arena's program of `mp` executed alone (same driver, same bookkeeping seeds): the reference
+/// against which its behaviour inside the multi-arena run is compared (Isolation.tla).
+pub fn run_solo(pidx: usize, mp: &MultiProgram) -> Vec<Vec<Event>> {
+    let mut out = Vec::new();
+    for (a, ops) in mp.arenas.iter().enumerate() {
+        let one = MultiProgram { ma: mp.ma, arenas: vec![ops.clone()], threads: vec![0], schedule: vec![], tag: mp.tag.clone() };
+        let (mut evs, _) = run_multi(pidx, &one);
+        for e in evs.iter_mut() {
+            e.ar = a;
+        }
+        out.push(evs);
+    }
+    out
+}
+
+/// Placement-independent projection of an event: what must not depend on other arenas.
+#[derive(Serialize, Clone, Debug, Default, PartialEq)]
+pub struct IsoEvent {
+    pub p: usize,
+    pub ar: usize,
+    pub i: usize,
+    pub solo: u8,
+    pub op: String,
+    pub res: String,
+    pub rel: i64,               // returned address relative to the start of the chunk it lies in (-1: none)
+    pub reqs: Vec<[i64; 3]>,    // global allocator requests: size, align, granted
+    pub chunks: Vec<[i64; 2]>,  // per chunk: usable size, bytes allocated
+    pub ab: i64,
+    pub abm: i64,
+    pub cap: i64,
+    pub lim: i64,
+    pub newrel: Vec<[i64; 3]>,  // blocks born: offset in chunk, size, align
+}
+
+pub fn iso_of(e: &Event, solo: bool) -> IsoEvent {
+    let rel_of = |addr: i64| -> i64 {
+        if addr <= 0 {
+            return -1;
+        }
+        for c in &e.chunks {
+            if c[0] <= addr && addr <= c[1] {
+                return addr - c[0];
+            }
+        }
+        if (addr - e.sent).abs() < 4096 {
+            return 1_000_000 + (addr - e.sent);
+        }
+        -2
+    };
+    IsoEvent {
+        p: e.p,
+        ar: e.ar,
+        i: e.i,
+        solo: solo as u8,
+        op: e.op.clone(),
+        res: e.res.clone(),
+        rel: rel_of(e.addr),
+        reqs: e.ga.iter().map(|g| [g[1], g[2], g[4]]).collect(),
+        chunks: e.chunks.iter().map(|c| [c[1] - c[0], c[1] - c[2]]).collect(),
+        ab: e.ab,
+        abm: e.abm,
+        cap: e.cap,
+        lim: e.lim,
+        newrel: e.new.iter().map(|n| [rel_of(n[1]), n[2], n[3]]).collect(),
     }
 }
 
